@@ -150,6 +150,7 @@ def _scratch_worktree():
         return None, None
     shutil.rmtree(os.path.join(wt, "ECAgent"))
     shutil.copytree(os.path.join(core.REPO, "ECAgent"), os.path.join(wt, "ECAgent"), ignore=shutil.ignore_patterns("__pycache__"))
+    subprocess.run(["git", "update-index", "-q", "--refresh"], cwd=wt, capture_output=True)   # the copies have new stat data
     return base, wt
 
 
@@ -166,7 +167,14 @@ def _one_mutant(args):
             if base is not None:
                 cp = subprocess.run(["git", "apply", "--3way", m["patch"]], cwd=copy, capture_output=True, text=True)
                 if cp.returncode != 0 or "with conflicts" in (cp.stdout + cp.stderr):
-                    raise core.HarnessError(f"patch {m['patch']} does not apply (3-way): {(cp.stdout + cp.stderr)[-300:]}")
+                    subprocess.run(["git", "checkout", "--", "ECAgent"], cwd=copy, capture_output=True)
+                    subprocess.run(["git", "reset", "-q"], cwd=copy, capture_output=True)
+                    shutil.rmtree(os.path.join(copy, "ECAgent"))
+                    shutil.copytree(os.path.join(core.REPO, "ECAgent"), os.path.join(copy, "ECAgent"),
+                                    ignore=shutil.ignore_patterns("__pycache__"))
+                    cp2 = subprocess.run(["git", "apply", m["patch"]], cwd=copy, capture_output=True, text=True)   # working tree only
+                    if cp2.returncode != 0:
+                        raise core.HarnessError(f"patch {m['patch']} does not apply (3-way): {(cp.stdout + cp.stderr)[-300:]}")
             else:
                 apply_mutant(copy, m)
         except core.HarnessError as e:
